@@ -22,12 +22,11 @@ def run(ctx):
     tot = dict(cases=0, mismatches=0, routes={})
     samples = []
     for module, cfg in (("GEN_PathData", "GEN_PathData_q" if quick else "GEN_PathData_t"), ("GEN_MdFile", "GEN_MdFile")):
-        g = ctx.tlc(module, cfg, timeout=3000)
+        gen = os.path.join(ctx.tmp, module + ".out")
+        g = ctx.tlc(module, cfg, timeout=3400, out_file=gen)
         if g["error"] or not g["finished"]:
             raise vlib.Broken("%s failed (spec-level):\n%s" % (module, vlib.tail(g["out"])))
         ctx.mc.append({k: g[k] for k in ("module", "cfg", "generated", "distinct", "wall_s")})
-        gen = os.path.join(ctx.tmp, module + ".out")
-        open(gen, "w").write(g["out"])
         mis = os.path.join(ctx.tmp, module + ".mis")
         p, _ = ctx.run_harness(["replay-path", "-in", gen, "-out", mis], timeout=3000)
         s = deccheck.summary_of(p)
